@@ -60,7 +60,7 @@ Ltac sym2 :=
   repeat (cbn -[run_report_errors run_parse_docstring report_errors parse_docstring get_docformat];
           unfold processtypes_wrap, base_parser, F_PLAINTEXT; rewrite ?app_nil_r; try congruence;
           try absurd_tests;
-          try rewrite code_report_errors_is_model; try sym_step).
+          try first [rewrite code_report_errors_is_model | sym_step]).
 
 Theorem code_parse_docstring_is_model O c st obj doc source markup sec :
   run_parse_docstring docflow_code O c [VObj obj; VText doc; VObj source; markup_value markup; VSec sec] st =
@@ -92,8 +92,8 @@ Ltac sym3 :=
   repeat (cbn -[run_report_errors run_parse_docstring report_errors parse_docstring get_docstring run_fallback];
           unfold set_pdoc, upd; rewrite ?N.eqb_refl; try congruence;
           try solve [cbn in *; unfold upd in *; rewrite ?N.eqb_refl in *; cbn in *; congruence];
-          try rewrite code_report_errors_is_model; try rewrite code_parse_docstring_default;
-          try absurd_tests; try sym_step).
+          try absurd_tests;
+          try first [rewrite code_report_errors_is_model | rewrite code_parse_docstring_default | sym_step]).
 
 Theorem code_ensure_parsed_docstring_is_model O c st o :
   run_ensure_parsed_docstring docflow_code O c [VObj o] st =
